@@ -165,5 +165,20 @@ class SimulationHistory:
 
         raise ValueError("No matching hash")
 
+    def _last_playlog(self) -> PlayLog:
+        for log in reversed(self._logs):
+            if log.playlogs:
+                return log.last()
+
+        raise ValueError("No playlog exists in history")
+
+    def last_events(self) -> list:
+        """Events of the last played action; these are what RESOLVE-like operations read."""
+        for log in reversed(self._logs):
+            if log.playlogs:
+                return list(log.last().events)
+
+        return []
+
     def _current_ckpt(self) -> Checkpoint:
-        return self._logs[-1].last().checkpoint
+        return self._last_playlog().checkpoint
